@@ -318,7 +318,15 @@ ORACLES = {'table': o_table, 'corr': o_corr}
 
 def exhaustive(ctx, depth, alphabet):
     """depth-first enumeration of all sequences over the alphabet up to `depth`, sharing prefixes:
-    the implementation state is deep-copied per node, the model state is saved with push/pop."""
+    the implementation state is deep-copied per node, the model state is saved with push/pop.
+    One driver batch per first letter (bounds the memory)."""
+    bad = []
+    for first in range(len(alphabet)):
+        bad += _exh_chunk(ctx, depth, alphabet, first)
+    return bad
+
+
+def _exh_chunk(ctx, depth, alphabet, first):
     conts = []
     lines = ['reset']
     nodes = []        # (path, op, ri, snaps, share) in the order of the op lines
@@ -331,6 +339,8 @@ def exhaustive(ctx, depth, alphabet):
         if len(path) == depth:
             return
         for ai, op0 in enumerate(alphabet):
+            if not path and ai != first:
+                continue
             cs = copy.deepcopy(conts)
             op = resolve(op0, len(cs))
             ri = sf.impl_apply(cs, op)
@@ -347,8 +357,10 @@ def exhaustive(ctx, depth, alphabet):
     assert len(out) == len(nodes)
     bad = []
     for (path, op, ri, snaps, share), ans in zip(nodes, out):
+        if not path and first:
+            continue
         ctx.count('exhaustive:len=%d' % len(path))
-        ctx.case(key=('exh', path), desc={'exhaustive_path': [alphabet[i]['op'] for i in path]} if len(path) == depth and ctx.evaluations % 4001 == 0 else None)
+        ctx.case(key=('exh', len(alphabet), path), desc={'exhaustive_path': [alphabet[i]['op'] for i in path]} if len(path) == depth and ctx.evaluations % 40001 == 0 else None)
         d = compare_step(op, ri, snaps, share, ans)
         if d:
             bad.append((path, d))
@@ -386,16 +398,22 @@ def run(ctx):
     ctx.assumptions += ['arrays handed to append_field / __setitem__ / the constructor are not referenced elsewhere (fresh)',
                         'no NaN in sort keys; conversions dicts have distinct old names (a Python dict)']
     # ---- bounded-exhaustive histories
-    depth = ctx.n(3, 5)
-    alphabet = EXH_ALPHABET if not ctx.thorough else EXH_ALPHABET
-    bad = exhaustive(ctx, depth, alphabet)
+    depth = ctx.n(4, 5)
+    alphabet = EXH_ALPHABET
+    bad = [(p, d, alphabet) for p, d in exhaustive(ctx, depth, alphabet)]
     ctx.extra['exhaustive_depth'] = depth
     ctx.extra['exhaustive_alphabet'] = len(alphabet)
+    if ctx.thorough:
+        # length 6 (the bound of the quantifier) over the 8 letters that mutate container 0 or raise
+        small = [EXH_ALPHABET[i] for i in (0, 1, 2, 3, 5, 6, 7, 9)]
+        bad += [(p, d, small) for p, d in exhaustive(ctx, 6, small)]
+        ctx.extra['exhaustive_depth_small_alphabet'] = 6
+        ctx.extra['exhaustive_small_alphabet'] = len(small)
     seen = set()
-    for path, d in sorted(bad, key=lambda x: len(x[0])):
-        case = path_case(path, alphabet)
+    for path, d, alph in sorted(bad, key=lambda x: len(x[0])):
+        case = path_case(path, alph)
         r = table_check(case)
-        sig = (r[1], r[0]) if r else ('corr', alphabet[path[-1]]['op'])
+        sig = (r[1], r[0]) if r else ('corr', alph[path[-1]]['op'])
         if sig in seen:
             continue
         seen.add(sig)
